@@ -3,7 +3,8 @@ package main
 // ProducerFacts (C14): from producer/rawSocket.go the write expression of RawSocket.inputMsg (is the
 // message a value argument or the format string?) and the statement skeleton of its receive/retry/
 // redial loops; from sarama/segmentio/nsq/nats the expression handed to the client library as
-// payload, relative to the variable received from the channel. Fails closed: whatever is not
+// payload, relative to the variable received from the channel; from sarama.go also the shape of the
+// send loop of KafkaSarama.inputMsg (is the select repeated until Input() accepted the message?). Fails closed: whatever is not
 // recognised is emitted as `.unrecognised "<go text>"` / `.other "<go text>"`.
 
 import (
@@ -300,6 +301,137 @@ func pfPayload(fset *token.FileSet, fd *ast.FuncDecl, backend string) string {
 	return ".other " + pfLeanStr(e)
 }
 
+// pfKArm renders the body of one select arm: log statements, `*ec++`, how it ends; whatever else
+// it holds goes into `junk` as Go text (fail closed)
+func pfKArm(fset *token.FileSet, body []ast.Stmt) string {
+	logs, incs := 0, 0
+	exit := ".fallOut"
+	var junk []string
+	for i, s := range body {
+		txt := pfSrc(fset, s)
+		switch x := s.(type) {
+		case *ast.ExprStmt:
+			if regexp.MustCompile(`^k\.logger\.Print(f|ln)?\(`).MatchString(txt) {
+				logs++
+				continue
+			}
+		case *ast.IncDecStmt:
+			if txt == "*ec++" {
+				incs++
+				continue
+			}
+		case *ast.BranchStmt:
+			if i == len(body)-1 {
+				if x.Tok == token.BREAK && x.Label != nil {
+					exit = ".breakLabel " + pfLeanStr(x.Label.Name)
+				} else {
+					exit = ".other " + pfLeanStr(txt)
+				}
+				continue
+			}
+		}
+		junk = append(junk, pfLeanStr(txt))
+	}
+	return fmt.Sprintf("{ logs := %d, incs := %d, exit := %s, junk := [%s] }", logs, incs, exit, strings.Join(junk, ", "))
+}
+
+// pfKSelect recognises `select { case k.producer.Input() <- &sarama.ProducerMessage{…}: …
+// case err := <-k.producer.Errors(): … }` (the two arms in either order, nothing else, no default)
+// and returns the rendered input and error arms
+func pfKSelect(fset *token.FileSet, sel *ast.SelectStmt) (string, string, bool) {
+	in, er := "", ""
+	for _, c := range sel.Body.List {
+		cc, ok := c.(*ast.CommClause)
+		if !ok || cc.Comm == nil {
+			return "", "", false
+		}
+		switch x := cc.Comm.(type) {
+		case *ast.SendStmt:
+			u, ok := x.Value.(*ast.UnaryExpr)
+			if !ok || u.Op != token.AND || in != "" || pfSrc(fset, x.Chan) != "k.producer.Input()" {
+				return "", "", false
+			}
+			if cl, ok := u.X.(*ast.CompositeLit); !ok || pfSrc(fset, cl.Type) != "sarama.ProducerMessage" {
+				return "", "", false
+			}
+			in = pfKArm(fset, cc.Body)
+		case *ast.AssignStmt:
+			if er != "" || pfSrc(fset, x) != "err := <-k.producer.Errors()" {
+				return "", "", false
+			}
+			er = pfKArm(fset, cc.Body)
+		default:
+			return "", "", false
+		}
+	}
+	return in, er, in != "" && er != "" && len(sel.Body.List) == 2
+}
+
+// pfSaramaLoop: the shape of KafkaSarama.inputMsg's send loop as a `KLoop` term. Whatever is not
+// recognised ends up in `extra` / `junk` / `.unrecognised`, which no obligation accepts.
+func pfSaramaLoop(fset *token.FileSet, fd *ast.FuncDecl) string {
+	var extra []string
+	var loop *ast.ForStmt
+	for _, s := range fd.Body.List {
+		txt := pfSrc(fset, s)
+		switch x := s.(type) {
+		case *ast.DeclStmt:
+			if gd, ok := x.Decl.(*ast.GenDecl); ok && gd.Tok == token.VAR {
+				plain := true
+				for _, sp := range gd.Specs {
+					if vs, ok := sp.(*ast.ValueSpec); !ok || len(vs.Values) != 0 {
+						plain = false
+					}
+				}
+				if plain {
+					continue
+				}
+			}
+		case *ast.ExprStmt:
+			if strings.HasPrefix(txt, "k.logger.Printf(\"start producer: Kafka") || txt == "k.producer.Close()" {
+				continue
+			}
+		case *ast.ForStmt:
+			if loop == nil && x.Init == nil && x.Cond == nil && x.Post == nil {
+				loop = x
+				continue
+			}
+		}
+		extra = append(extra, pfLeanStr(txt))
+	}
+	recvFirst := false
+	offer := `.unrecognised "no for { … } found"`
+	if loop != nil {
+		body := loop.Body.List
+		if len(body) >= 2 && pfSrc(fset, body[0]) == "msg, ok = <-mCh" && pfSrc(fset, body[1]) == "if !ok { break }" {
+			recvFirst = true
+			body = body[2:]
+		}
+		offer = `.unrecognised "no statement after the receive"`
+		if len(body) >= 1 {
+			offer = ".unrecognised " + pfLeanStr(pfSrc(fset, body[0]))
+			switch x := body[0].(type) {
+			case *ast.SelectStmt:
+				if in, er, ok := pfKSelect(fset, x); ok {
+					offer = fmt.Sprintf(".selectOnce\n      %s\n      %s", in, er)
+				}
+			case *ast.LabeledStmt:
+				if fs, ok := x.Stmt.(*ast.ForStmt); ok && fs.Init == nil && fs.Cond == nil && fs.Post == nil && len(fs.Body.List) == 1 {
+					if sel, ok := fs.Body.List[0].(*ast.SelectStmt); ok {
+						if in, er, ok := pfKSelect(fset, sel); ok {
+							offer = fmt.Sprintf(".selectLoop %s\n      %s\n      %s", pfLeanStr(x.Label.Name), in, er)
+						}
+					}
+				}
+			}
+			for _, s := range body[1:] {
+				extra = append(extra, pfLeanStr(pfSrc(fset, s)))
+			}
+		}
+	}
+	return fmt.Sprintf("{ recvFirst := %v,\n    offer := %s,\n    extra := [%s] }", recvFirst, offer, strings.Join(extra, ", "))
+}
+
 func genProducerFacts(repo string) (genFile, error) {
 	fset := token.NewFileSet()
 	var b strings.Builder
@@ -354,6 +486,15 @@ func genProducerFacts(repo string) (genFile, error) {
 		}
 		fmt.Fprintf(&b, "/-- `%s.inputMsg`: what is handed to the client library -/\ndef %s : PayloadExpr := %s\n\n", be.recv, be.name, val)
 	}
+	kloop := ""
+	if f, err := parser.ParseFile(fset, filepath.Join(repo, "producer", "sarama.go"), nil, 0); err != nil {
+		kloop = "{ recvFirst := false, offer := .unrecognised " + pfLeanStr("parse error: "+err.Error()) + ", extra := [] }"
+	} else if fd := pfMethod(f, "KafkaSarama", "inputMsg"); fd == nil {
+		kloop = `{ recvFirst := false, offer := .unrecognised "KafkaSarama.inputMsg not found", extra := [] }`
+	} else {
+		kloop = pfSaramaLoop(fset, fd)
+	}
+	fmt.Fprintf(&b, "/-- `KafkaSarama.inputMsg`: the shape of its send loop -/\ndef saramaLoop : KLoop :=\n  %s\n\n", kloop)
 	b.WriteString("end Vflow.Gen\n")
 	return genFile{name: "ProducerFacts", body: b.String()}, nil
 }
